@@ -26,6 +26,8 @@ CONSTANTS Clients,     \* client / item identifiers
           CloseWaits,  \* TRUE: shutdown waits for a snapshot/compaction in progress
           CaptureWaits,\* TRUE: the capture of a snapshot/compaction waits for every call that started before Begin
                        \*       (beginWrite / waitForEarlierWrites in engine.go); FALSE: the older protocol with the gap
+          DropRace,    \* TRUE: the older Write/Close race (a Write that passed the closing check is enqueued after the final
+                       \*       drain: acknowledged and dropped); FALSE: Write enqueues under the lock Close takes first (7e3580a)
           SnapFails    \* TRUE: a snapshot may fail after Begin (temp file cannot be created): error-path cleanup
 
 VARIABLES
@@ -89,11 +91,13 @@ C_Enqueue(c) ==
   /\ IF wdead
      THEN cpc' = [cpc EXCEPT ![c] = "idle"] /\ UNCHANGED q      \* Write returns an error, nothing applied
      ELSE IF wclosed
-     THEN \* the close command has been served but the goroutine has not exited yet: a Write that passed
-          \* the closing check earlier is still queued, acknowledged -- and dropped
-          cpc' = [cpc EXCEPT ![c] = "sent"] /\ UNCHANGED q
+     THEN IF DropRace
+          THEN \* (older protocol) a Write that passed the closing check earlier is still queued, acknowledged -- and dropped
+               cpc' = [cpc EXCEPT ![c] = "sent"] /\ UNCHANGED q
+          ELSE \* check and enqueue happen under the lock Close takes before its command: the Write is refused
+               cpc' = [cpc EXCEPT ![c] = "idle"] /\ UNCHANGED q
      ELSE q' = Append(q, [c |-> c, v |-> cver[c]]) /\ cpc' = [cpc EXCEPT ![c] = "sent"]
-  /\ pre' = IF wdead THEN pre \ {c} ELSE pre
+  /\ pre' = IF wdead \/ (wclosed /\ ~DropRace) THEN pre \ {c} ELSE pre
   /\ UNCHANGED <<cver, memv, acked, buf, shadow, mode, wclosed, wdead, ackpre, file, snap, apc, img, pend, nadmin, nflush, dev>>
 
 \* the memory mutation, then the call returns nil (acknowledged)
@@ -251,6 +255,12 @@ Inv_NoAckedLoss ==
 \* CaptureWaits = FALSE (the gap the repair 1e83c14 closed; the check runs that configuration as a canary)
 Inv_NoAckedLossStrict ==
   (wclosed /\ apc = "idle") => \A c \in Clients : Recover(snap, file)[c] >= ackpre[c]
+
+\* and without the restriction to writes acknowledged before the close command was served: once everything is
+\* quiescent, EVERY acknowledged write is read back (holds with DropRace = FALSE; the canary run with TRUE must fail)
+Inv_EveryAckedWrite ==
+  (wclosed /\ apc = "idle" /\ \A c \in Clients : cpc[c] = "idle")
+     => \A c \in Clients : Recover(snap, file)[c] >= acked[c]
 
 \* at every instant (not only after Close): every acknowledged version is in the log, the snapshot or in flight
 \* -- unless the gap deviation was exercised
